@@ -29,6 +29,12 @@ class Dummy:
     def read(self, amount=None):
         return b'x'
 
+    def seek(self, where, whence=0):
+        return where
+
+    def tell(self):
+        return 0
+
     def close(self):
         pass
 
@@ -111,6 +117,9 @@ def run_sim(spec):
             for oi, (amt, think) in enumerate(st['ops']):
                 if think:
                     sim.park(sim.now + think)
+                if oi in st.get('rewind_before', ()):
+                    # the transport rewinds the body for a retry of the request: what is read again goes over the wire again
+                    stream.seek(0)
                 t0 = sim.now
                 cur_op[name] = oi
                 before = len([s for s in sim.sleeps if s[0] == name])
@@ -305,6 +314,19 @@ def gen_cases(tier, seed):
         fam = 'saturated' if load_set == ['sat'] else 'mixed'
         cases.append({'family': fam, 'same_transfer': rng.random() < 0.5, 'seed': rng.randrange(1 << 30), 'max': mx, 'threshold': thr, 'streams': streams,
                       'lateness': rng.choice(['none', 'none', 'small', 'large']), 'profile': 'default'})
+    # request retries: the body is rewound (seek(0)) after a good part of it was read, and read again - once or several times
+    for i in range(40 if quick else 300):
+        S = rng.randint(1, 3)
+        thr = rng.choice([100, 50])
+        amt = rng.choice([50, 100])
+        nops = rng.choice([40, 60])
+        streams = []
+        for _ in range(S):
+            k = rng.randrange(nops // 3, nops // 2)
+            rw = [k] + ([k + (nops - k) // 2] if rng.random() < 0.4 else [])
+            streams.append({'start': 0.0, 'ops': [(amt, 0.0)] * nops, 'rewind_before': rw})
+        cases.append({'family': 'rewind', 'same_transfer': rng.random() < 0.5, 'seed': rng.randrange(1 << 30), 'max': mx, 'threshold': thr, 'streams': streams,
+                      'lateness': rng.choice(['none', 'small']), 'profile': 'default'})
     # O3: evenly staggered demand below the limit
     for i in range(40 if quick else 300):
         S = rng.randint(1, 8)
